@@ -33,7 +33,7 @@ NAMES = ["Mode", "Input", "Output", "SetClr"]
 
 @st.composite
 def _spec(draw, tier):
-    dw = draw(st.sampled_from([8, 8, 16, 32]))
+    dw = draw(st.sampled_from([8, 8, 16, 32, 24, 40]))      # 24 and 40: bus widths that are not powers of two
     pins = draw(st.one_of(st.integers(1, dw + 3), st.integers(dw // 2 + 1, dw + 3), st.integers(1, 6)))
     big = draw(st.integers(0, 19))
     if big == 0:
